@@ -42,12 +42,13 @@ theorem mustHold_iff (rq : Req) (r : Rollout) :
     while the first active Rollout referencing it is `r` (non-empty strategy; with traffic routing
     only while a Deployment / CloneSet runs a single revision) is admitted *patched*:
     held back (paused / partition `100%` / partition `32767`), marked in-progress for `r`,
-    and otherwise identical to the submitted object — for every well-formed request except an
+    and otherwise identical to the submitted object (a Deployment may in addition get the
+    stable-revision label of one of its running ReplicaSets with a different template) — for every well-formed request except an
     Advanced DaemonSet without `updateStrategy.rollingUpdate` (see `daemonSet_without_rollingUpdate`). -/
 theorem held_and_marked (rq : Req) (r : Rollout)
     (hm : mustHoldRollout rq = some r) (hw : wellFormed rq = true) (hds : dsNoRollingUpdate rq = false) :
     ∃ o, handle rq = .patched o ∧ heldBack (wkind rq) o = true ∧ o.inProgress = .rollout r.name
-      ∧ holdFrame (wkind rq) rq.new o = true := by
+      ∧ holdFrame (wkind rq) rq.new o = true ∧ stableRevOk rq o = true := by
   have hsel : selected rq = true := by
     unfold mustHoldRollout at hm; split at hm <;> simp_all
   have helig : eligible rq = true := by
@@ -68,13 +69,16 @@ theorem held_and_marked (rq : Req) (r : Rollout)
     have hsome := findCanary_isSome rq hrs
     rcases hf : findCanaryAndStableReplicaSet (activeRS rq) rq.new with _ | ⟨a, _ | s⟩
     · simp [hf] at hsome
-    · exact ⟨_, rfl, by simp [heldBack], rfl, by simp [holdFrame]⟩
-    · exact ⟨_, rfl, by simp [heldBack], rfl, by simp [holdFrame]⟩
+    · exact ⟨_, rfl, by simp [heldBack], rfl, by simp [holdFrame], by simp [stableRevOk]⟩
+    · obtain ⟨hmem, hne⟩ := findCanary_stable rq a s hf
+      refine ⟨_, rfl, by simp [heldBack], rfl, by simp [holdFrame], ?_⟩
+      simp only [stableRevOk, Bool.or_eq_true, List.any_eq_true, Bool.and_eq_true, beq_iff_eq, bne_iff_ne]
+      exact Or.inr ⟨s, hmem, rfl, hne⟩
   | cloneSet =>
     have hu := (wkind_cloneSet hk).1
     rw [hu]; simp only [Bool.false_eq_true, if_false]
     rw [dispatch_cloneSet hk, handleCloneSet_eq hk hsel, hm]
-    exact ⟨_, rfl, by simp [heldBack], rfl, by simp [holdFrame]⟩
+    exact ⟨_, rfl, by simp [heldBack], rfl, by simp [holdFrame], by simp [stableRevOk]⟩
   | daemonSet =>
     have hu := (wkind_daemonSet hk).1
     rw [hu]; simp only [Bool.false_eq_true, if_false]
@@ -85,7 +89,7 @@ theorem held_and_marked (rq : Req) (r : Rollout)
     simp only [hk, beq_self_eq_true, Bool.true_and] at hds
     simp only [Bool.and_eq_true] at hus
     rcases hn : rq.new.us with _ | _ | ⟨t, _ | _ | p⟩ <;> simp [hn, typedUSOk] at hds hus
-    refine ⟨_, rfl, by simp [heldBack, maxInt16], rfl, ?_⟩
+    refine ⟨_, rfl, by simp [heldBack, maxInt16], rfl, ?_, by simp [stableRevOk]⟩
     simp [holdFrame, usTypeKept, hn]
     rw [← hn]
   | stsLike =>
@@ -93,7 +97,7 @@ theorem held_and_marked (rq : Req) (r : Rollout)
     rw [hu]; simp only [if_true]
     rw [hd, handleSts_eq hk hsel, hm, hmeta]
     simp only [Bool.not_true, Bool.and_false, Bool.false_eq_true, if_false]
-    refine ⟨_, rfl, ?_, rfl, ?_⟩
+    refine ⟨_, rfl, ?_, rfl, ?_, by simp [stableRevOk]⟩
     · rcases hn : rq.new.us with _ | _ | ⟨t, ru⟩ <;> simp [heldBack, setStatefulSetPartition, maxInt16]
     · rcases hn : rq.new.us with _ | _ | ⟨t, ru⟩ <;> (simp [holdFrame, setStatefulSetPartition, usTypeKept, hn]; rw [← hn])
 
@@ -261,8 +265,8 @@ theorem hold_ok (rq : Req) : holdOk rq (run rq) = true := by
     cases hw : wellFormed rq
     · simp
     · cases hds : dsNoRollingUpdate rq
-      · obtain ⟨o, ho, h1, h2, h3⟩ := held_and_marked rq r hm hw hds
-        simp [run, ho, outcome, h1, h2, h3]
+      · obtain ⟨o, ho, h1, h2, h3, h4⟩ := held_and_marked rq r hm hw hds
+        simp [run, ho, outcome, h1, h2, h3, h4]
       · have := daemonSet_without_rollingUpdate rq r hm hw hds
         simp [run, this, outcome]
 
